@@ -910,6 +910,211 @@ def describe(op: Dict[str, Any]) -> str:
     return k + "(" + ",".join(f"{a}={v}" for a, v in op.items() if a != "op") + ")"
 
 
+# ===================================================================== Node machine: sequences on a real Node
+
+def fmt_list(l) -> str:
+    l = list(l)
+    return ",".join(str(int(v)) for v in l) if l else "-"
+
+
+def fmt_node(node) -> str:
+    par = "-" if node.parent is None else str(node.parent)
+    return f"{fmt_list(node.leg_permutation)}|{fmt_list(node.shape)}|{par}|{fmt_list(node.children)}"
+
+
+def parse_list(s: str) -> List[int]:
+    return [] if s == "-" else [int(v) for v in s.split(",")]
+
+
+def node_exec(node, tok: str) -> None:
+    """Apply one protocol token to a real `Node` (raises whatever the library raises)."""
+    f = tok.split(":")
+    k = f[0]
+    if k == "link":
+        node.link_tensor(np.zeros(tuple(parse_list(f[1]))))
+    elif k == "reset":
+        node._reset_permutation()
+    elif k == "rt":
+        node.replace_tensor(np.zeros(tuple(parse_list(f[1]))), None if f[2] == "none" else parse_list(f[2]))
+    elif k == "o2p":
+        node.open_leg_to_parent(f[1], None if f[2] == "none" else int(f[2]))
+    elif k == "o2c":
+        node.open_leg_to_child(f[1], int(f[2]))
+    elif k == "o2cs":
+        d = {}
+        if f[1] != "-":
+            for item in f[1].split(","):
+                c, leg = item.split("=")
+                d[c] = int(leg)
+        node.open_legs_to_children(d)
+    elif k == "p2o":
+        node.parent_leg_to_open_leg()
+    elif k == "c2o":
+        node.child_leg_to_open_leg(f[1])
+    elif k == "cs2o":
+        node.children_legs_to_open_legs([str(c) for c in parse_list(f[1])])
+    elif k == "xch":
+        node.exchange_open_leg_ranges(range(int(f[1]), int(f[2])), range(int(f[3]), int(f[4])))
+    elif k == "swap":
+        node.swap_two_child_legs(f[1], f[2])
+    else:
+        raise common.HarnessError(f"unknown node token {tok}")
+
+
+def gen_node_tok(rng: random.Random, node, used_ids: List[int]) -> str:
+    nl, nv = node.nlegs(), node.nvirt_legs()
+    nopen = nl - nv
+    kids = [int(c) for c in node.children]
+
+    def new_id():
+        v = max(used_ids + [0]) + 1
+        used_ids.append(v)
+        return v
+    wild = rng.random() < 0.12          # inadmissible / boundary arguments
+    cands = ["reset", "rt", "rt"]
+    if nopen > 0 or wild:
+        cands += ["o2c", "o2c", "o2cs", "o2cs"]
+        if node.parent is None or wild:
+            cands += ["o2p", "o2p"]
+    if node.parent is not None or wild:
+        cands += ["p2o"]
+    if kids or wild:
+        cands += ["c2o", "cs2o", "swap"]
+    if nopen >= 1 or wild:
+        cands += ["xch", "xch"]
+    if rng.random() < 0.03:
+        cands = ["link"]
+    k = rng.choice(cands)
+    anyleg = lambda: rng.randrange(0, nl + 2)               # noqa: E731
+    openleg = lambda: (anyleg() if (wild or nopen <= 0) else rng.randrange(nv, nl))   # noqa: E731
+    if k == "link":
+        dims = rng.sample(range(2, 10), rng.randint(max(nv, 0), 7)) if nv <= 7 else []
+        return "link:" + fmt_list(dims)
+    if k == "reset":
+        return "reset"
+    if k == "rt":
+        shape = list(node.shape)
+        p = list(range(nl))
+        rng.shuffle(p)
+        inv = [0] * nl
+        for i, v in enumerate(p):
+            inv[v] = i
+        tsh = [shape[inv[j]] for j in range(nl)]       # permute_iterator(tsh, p) == shape
+        r = rng.random()
+        if r < 0.15:
+            return f"rt:{fmt_list(shape)}:none"
+        if wild:
+            q = rng.choice(["dup", "short", "range", "shape"])
+            if q == "dup" and nl >= 2:
+                p[0] = p[1]
+            elif q == "short" and nl >= 1:
+                p = p[:-1]
+            elif q == "range" and nl >= 1:
+                p[rng.randrange(nl)] = nl + 1
+            else:
+                tsh = tsh + [2]
+        return f"rt:{fmt_list(tsh)}:{fmt_list(p)}"
+    if k == "o2p":
+        return f"o2p:{new_id()}:{'none' if rng.random() < 0.1 else openleg()}"
+    if k == "o2c":
+        return f"o2c:{new_id()}:{openleg()}"
+    if k == "o2cs":
+        m = rng.randint(0, max(nopen, 0) if not wild else 3)
+        legs = rng.sample(range(nv, nl), min(m, max(nopen, 0))) if not wild else [anyleg() for _ in range(m)]
+        return "o2cs:" + (",".join(f"{new_id()}={l}" for l in legs) if legs else "-")
+    if k == "p2o":
+        return "p2o"
+    if k == "c2o":
+        return f"c2o:{rng.choice(kids) if (kids and not wild) else rng.randrange(1, 12)}"
+    if k == "cs2o":
+        sel = rng.sample(kids, rng.randint(0, len(kids))) if not wild else [rng.randrange(1, 12) for _ in range(2)]
+        return "cs2o:" + fmt_list(sel)
+    if k == "swap":
+        pick = lambda: (rng.choice(kids) if (kids and not wild) else rng.randrange(1, 12))   # noqa: E731
+        return f"swap:{pick()}:{pick()}"
+    if k == "xch":
+        if wild:
+            v = [anyleg() for _ in range(4)]
+            return f"xch:{v[0]}:{v[1]}:{v[2]}:{v[3]}"
+        cuts = sorted(rng.randint(nv, nl) for _ in range(4))
+        a, b = (cuts[0], cuts[1]), (cuts[2], cuts[3])
+        if rng.random() < 0.5:
+            a, b = b, a
+        return f"xch:{a[0]}:{a[1]}:{b[0]}:{b[1]}"
+    return "reset"
+
+
+def run_nodeseq_impl(case: Dict[str, Any]) -> Tuple[List[str], List[str], List[str]]:
+    """Executes the sequence on a real Node. Returns (tokens, state lines, oracle problems)."""
+    import pytreenet as ptn
+    rng = random.Random(case["seed"])
+    node = ptn.Node(identifier="x")
+    toks: List[str] = []
+    lines: List[str] = []
+    probs: List[str] = []
+    used: List[int] = []
+    given = case.get("toks")
+    nl0 = rng.randint(0, 7)
+    first = "link:" + fmt_list(rng.sample(range(2, 10), nl0))
+    n = len(given) if given is not None else case["nops"]
+    for i in range(n):
+        tok = given[i] if given is not None else (first if i == 0 else gen_node_tok(rng, node, used))
+        saved = copy.deepcopy(node)
+        try:
+            node_exec(node, tok)
+            lines.append(fmt_node(node))
+        except common.HarnessError:
+            raise
+        except Exception:   # noqa: BLE001
+            node = saved
+            lines.append("err")
+        toks.append(tok)
+        # property clause at the Node level: the permutation stays a permutation, nvirt <= nlegs, shape coherent
+        if lines[-1] != "err" and node_tok_valid(tok):
+            perm = list(node.leg_permutation)
+            if sorted(perm) != list(range(len(perm))):
+                probs.append(f"after {tok}: leg permutation {perm} is not a permutation")
+            elif node.nvirt_legs() > node.nlegs():
+                probs.append(f"after {tok}: {node.nvirt_legs()} neighbours but {node.nlegs()} legs")
+            elif tuple(node.shape) != tuple(node._shape[p] for p in perm):
+                probs.append(f"after {tok}: shape {node.shape} is not the permuted stored shape")
+    return toks, lines, probs
+
+
+def node_tok_valid(tok: str) -> bool:
+    f = tok.split(":")
+    if f[0] == "o2cs" and f[1] != "-":
+        legs = [it.split("=")[1] for it in f[1].split(",")]
+        return len(set(legs)) == len(legs)
+    if f[0] == "rt" and f[2] != "none":
+        p = parse_list(f[2])
+        return sorted(p) == list(range(len(p)))
+    if f[0] == "link":
+        return False
+    return True
+
+
+def compare_nodeseq(ctx, case, toks, lines, probs, model_out: str):
+    c = dict(case, toks=toks)
+    kinds = {t.split(":")[0] for t in toks}
+    ctx.count(("nodeseq", case["seed"], len(toks)), nontrivial=len(kinds) >= 3, corr=True)
+    for t, ln in zip(toks, lines):
+        ctx.tally("node_ops", t.split(":")[0] + ("!" if ln == "err" else ""))
+    ctx.sample(c, 1)
+    if probs:
+        ctx.oracle_fail(c, "Node machine: " + probs[0])
+    mlines = model_out.split(";")
+    if model_out == "bad-op" or len(mlines) != len(lines):
+        ctx.corr_fail(c, f"nodeseq: model answered {model_out[:80]!r} for {len(lines)} ops")
+        return
+    for i, (a, b) in enumerate(zip(lines, mlines)):
+        if a != b:
+            cc = dict(case, toks=toks[:i + 1])
+            ctx.corr_fail(cc, f"nodeseq op#{i} {toks[i]}: Node gives {a}, model gives {b} "
+                              f"(state before: {lines[i - 1] if i else 'unlinked'})")
+            return
+
+
 # ===================================================================== model correspondence (filled in by stage 2/3)
 
 def state_line(w: World, rename: Optional[Dict[str, str]] = None) -> str:
@@ -927,6 +1132,11 @@ def run_case(ctx, case, model_out=None):
         ctx.tally("history_len", 10 * (len(done) // 10))
         ctx.tally("final_nodes", len(w.exp.nodes))
         ctx.sample({k: v for k, v in case.items() if k != "ops"}, 3)
+    elif kind == "nodeseq":
+        toks, lines, probs = run_nodeseq_impl(case)
+        if model_out is None:
+            model_out = ctx.lean.batch(["C02 nodeseq " + " ".join(toks)])[0]
+        compare_nodeseq(ctx, case, toks, lines, probs, model_out)
     else:
         raise common.HarnessError(f"unknown case kind {kind}")
 
@@ -940,6 +1150,8 @@ def gen_cases(ctx) -> List[Dict[str, Any]]:
         n = rng.choice([1, 2, 3, 3, 4, 4, 5, 5, 6, 6, 7, 8])
         nops = rng.choice([maxops, maxops, rng.randint(3, maxops)])
         cases.append({"kind": "hist", "seed": rng.randrange(10 ** 9), "n": n, "nops": nops})
+    for _ in range(ctx.n(400, 6000)):
+        cases.append({"kind": "nodeseq", "seed": rng.randrange(10 ** 9), "nops": rng.randint(2, 25)})
     return cases
 
 
@@ -957,13 +1169,28 @@ def load_corpus() -> List[Dict[str, Any]]:
 
 
 def run(ctx):
-    for case in load_corpus() + gen_cases(ctx):
+    cases = load_corpus() + gen_cases(ctx)
+    # Node machine: run the implementation first, then one batched model call
+    pending = []
+    for case in cases:
+        if case.get("kind") == "nodeseq":
+            pending.append((case,) + run_nodeseq_impl(case))
+    outs = ctx.lean.batch(["C02 nodeseq " + " ".join(t) for _, t, _, _ in pending])
+    for (case, toks, lines, probs), out in zip(pending, outs):
+        compare_nodeseq(ctx, case, toks, lines, probs, out)
+    for case in cases:
         if ctx.time_left() < 0:
             break
-        run_case(ctx, case)
+        if case.get("kind", "hist") == "hist":
+            run_case(ctx, case)
 
 
 def shrink(case):
+    if case.get("kind") == "nodeseq" and case.get("toks"):
+        toks = case["toks"]
+        for i in range(1, len(toks) - 1):          # keep the link and the failing op
+            yield dict(case, toks=toks[:i] + toks[i + 1:])
+        return
     if case.get("kind", "hist") != "hist" or not case.get("ops"):
         return
     ops = case["ops"]
